@@ -6,7 +6,9 @@ persistent statistic is run under a symbolic PRIOR HISTORY, re-initialised, and 
 the second replication must equal the same replication on a brand-new simulator and model.
 Prior history (VF_HIST fixed per condition, parameters symbolic):
    0 initialised only   1 stepped j times   2 bounded run to t   3 paused at event j (stop() from a
-   handler)   4 run to the end   5 paused by a handler fault (WARN_AND_PAUSE)
+   handler)   4 run to the end   5 paused by a handler fault (WARN_AND_PAUSE)   6 stepped j times, then an
+   explicit cleanup()   7 ended by a handler fault under WARN_AND_END (which cleans up itself)
+VF_START: the replication's start time (0 or later; event times, bounds and the warm-up move with it).
 Symbolic: the time of the second root event, the delay drawn from the stream (through the uniform it
 delivers), the warm-up time and the history parameter j / t; fixed: first root at 1, replication length VF_VMAX.
 """
@@ -24,6 +26,7 @@ from vf import rt
 
 HIST = rt.envint("VF_HIST", 1)
 VMAX = rt.envint("VF_VMAX", 3)
+START0 = rt.envint("VF_START", 0)           # replication start time (the simulator's own initial time stays 0)
 K = 3
 OBS = EventType("VF_C06_OBS")
 GRID = [0.0, 0.4, 0.8, 0.9999999999999999]
@@ -58,8 +61,8 @@ class StatModel(DSOLModel):
         self.persistent = SimPersistent("per", "persistent", sim, producer=self.prod, event_type=OBS)
         self.trace = []
         self.count = 0
-        sim.schedule_event_abs(conv(self.vals[0]), self, "fire", PRIOS[self.prios[0]], i=0)
-        sim.schedule_event_abs(conv(self.vals[1]), self, "fire", PRIOS[self.prios[1]], i=1)
+        sim.schedule_event_abs(conv(START0 + self.vals[0]), self, "fire", PRIOS[self.prios[0]], i=0)
+        sim.schedule_event_abs(conv(START0 + self.vals[1]), self, "fire", PRIOS[self.prios[1]], i=1)
 
     def fire(self, i):
         sim = self.simulator
@@ -105,7 +108,7 @@ def _run_to_end(sim):
 def _fresh_reference(vals, prios, seed, end, warm):
     sim = make_sim("ref")
     model = StatModel(sim, vals, prios, seed)
-    rep = SingleReplication("rep", conv(0), conv(warm), conv(end))
+    rep = SingleReplication("rep", conv(START0), conv(warm), conv(end))
     mon = Monitor()
     quiet(sim.initialize, model, rep)
     for et in (ReplicationInterface.START_REPLICATION_EVENT, ReplicationInterface.END_REPLICATION_EVENT,
@@ -119,27 +122,31 @@ def isolated(vals, prios, seed, end, warm, j, ui):
     if rt.MODE == "symbolic":
         rngstub.install([GRID[i] for i in ui])
     sim = make_sim("sim")
-    fail_at = j if HIST == 5 else -1
+    fail_at = j if HIST in (5, 7) else -1
     stop_at = j if HIST == 3 else -1
     model = StatModel(sim, vals, prios, seed, stop_at=stop_at, fail_at=fail_at)
-    rep = SingleReplication("rep", conv(0), conv(warm), conv(end))
+    rep = SingleReplication("rep", conv(START0), conv(warm), conv(end))
     if HIST == 5:
         sim.set_error_strategy(ErrorStrategy.WARN_AND_PAUSE)
+    if HIST == 7:
+        sim.set_error_strategy(ErrorStrategy.WARN_AND_END)
     quiet(sim.initialize, model, rep)
     # ---- prior history
     try:
-        if HIST == 1:
+        if HIST in (1, 6):
             for _ in range(j):
                 quiet(sim.step)
                 settle(sim)
         elif HIST == 2:
-            quiet(sim.run_up_to, conv(j))
+            quiet(sim.run_up_to, conv(START0 + j))
             settle(sim)
-        elif HIST in (3, 5):
+        elif HIST in (3, 5, 7):
             quiet(sim.start)
             settle(sim)
         elif HIST == 4:
             _run_to_end(sim)
+        if HIST == 6:
+            quiet(sim.cleanup)
     except DSOLError:
         pass
     # initialising while running must be refused: not reachable at quiescence with the inline worker, so it is
@@ -149,8 +156,8 @@ def isolated(vals, prios, seed, end, warm, j, ui):
         quiet(sim.initialize, model, rep)
     except Exception as e:      # noqa
         return rt.fail("C06:re-initialize-raised-" + type(e).__name__, lambda: f"history {HIST} j={j}: {e!r}")
-    if sim.simulator_time != conv(0):
-        return rt.fail("C06:clock-not-reset", lambda: f"{sim.simulator_time}")
+    if sim.simulator_time != conv(START0):
+        return rt.fail("C06:clock-not-reset", lambda: f"{sim.simulator_time}, replication start {conv(START0)}")
     if sim.run_state != RunState.INITIALIZED or sim.replication_state != ReplicationState.INITIALIZED:
         return rt.fail("C06:state-after-re-initialize", lambda: f"{sim.run_state} {sim.replication_state}")
     if sim.eventlist().size() != 3:
@@ -220,7 +227,7 @@ def h_init_while_running(v1: int, warm: int, ui: List[int]) -> bool:
         rngstub.install([GRID[i] for i in ui])
     sim = make_sim("sim")
     model = InitFromHandler(sim, [1, v1], [1, 1, 1], 7)
-    rep = SingleReplication("rep", conv(0), conv(warm), conv(VMAX))
+    rep = SingleReplication("rep", conv(START0), conv(warm), conv(VMAX))
     quiet(sim.initialize, model, rep)
     if not _run_to_end(sim):
         return rt.fail("C06:run-with-initialize-from-handler-does-not-end", lambda: f"{sim.run_state}")
